@@ -32,6 +32,8 @@ type c05Scenario struct {
 	// optional misbehaviour of the (first) client process: exit0 exit1 closeout garbage unknown, once k answers were emitted
 	ClientFault   string `json:"client_fault,omitempty"`
 	ClientFaultAt int    `json:"client_fault_at,omitempty"`
+	// Quiet: run without -v (then the server instances are visited in map order, not sorted)
+	Quiet bool `json:"quiet,omitempty"`
 	// CaseOrder: the order of the cases inside each server batch (hook verifCaseOrder): "" by name, rev, rot
 	CaseOrder string `json:"case_order,omitempty"`
 	// ServerHost / EchoCert: what every server reports about itself (see c11Scenario.Host); "" = varies by start index
@@ -188,7 +190,7 @@ type c05Obs struct {
 }
 
 func c05Flags(sc c05Scenario) *Flags {
-	f := &Flags{Verbose: true, MaxServers: uint(sc.MaxServers), Parallelism: 4}
+	f := &Flags{Verbose: !sc.Quiet, MaxServers: uint(sc.MaxServers), Parallelism: 4}
 	switch sc.Mode {
 	case "both":
 		f.ClientCommand, f.ServerCommand = []string{"fake-client"}, []string{"fake-server"}
@@ -649,19 +651,24 @@ func TestVerifC05TLS(t *testing.T) {
 					if h.host != "" && (ms == 4 || (mode != "both" && su == "mix")) {
 						continue
 					}
-					k++
-					if !r.Mine(k) {
-						continue
-					}
-					sc := c05Scenario{Cfg: "T", Suites: su, Mode: mode, MaxServers: ms, FailStart: -1, ServerHost: h.host, EchoCert: h.echo}
-					x, obs, _ := c05RunOne(t, sc, nil, nil)
-					_ = x
-					r.Eval(1)
-					r.NonTrivial("")
-					r.Outcome(c05Outcome(sc, obs))
-					r.Sample(map[string]any{"scenario": sc, "outcome": c05Outcome(sc, obs)})
-					for _, v := range obs.Verdicts {
-						r.Violate(v.key, v.detail, map[string]any{"scenario": sc, "choices": []int{}})
+					for _, quiet := range []bool{false, true} {
+						if quiet && h.host != "" && h.host != "localhost" {
+							continue
+						}
+						k++
+						if !r.Mine(k) {
+							continue
+						}
+						sc := c05Scenario{Cfg: "T", Suites: su, Mode: mode, MaxServers: ms, FailStart: -1, ServerHost: h.host, EchoCert: h.echo, Quiet: quiet}
+						x, obs, _ := c05RunOne(t, sc, nil, nil)
+						_ = x
+						r.Eval(1)
+						r.NonTrivial("")
+						r.Outcome(c05Outcome(sc, obs))
+						r.Sample(map[string]any{"scenario": sc, "outcome": c05Outcome(sc, obs)})
+						for _, v := range obs.Verdicts {
+							r.Violate(v.key, v.detail, map[string]any{"scenario": sc, "choices": []int{}})
+						}
 					}
 				}
 			}
